@@ -22,3 +22,11 @@ Definition run_descend (x : list (Z * list Z) * nat) : cv :=
   | Some l => CL (map CZ l)
   | None => CZ (-1)
   end.
+
+(* (links between cross-reference sections, start offset) -> the sections read, in order *)
+Definition run_xread (x : list (Z * list Z) * Z) : cv :=
+  let '(edges, start) := x in
+  match xread (fun n => match zassoc n edges with Some l => l | None => [] end) (S (length edges)) [] start with
+  | Some (_, o) => CL (map CZ o)
+  | None => CZ (-1)
+  end.
